@@ -26,6 +26,9 @@ CHECKS = {
  "C13": dict(text="Three parts. Writer: Sha256Writer.tla models buffering, block boundaries, FIPS padding and finished-ness around an uninterpreted compression function; TLC checks its invariants on all sequences of <= MaxWrites writes over 16 boundary sizes and every behaviour is replayed on the real Hash256Writer, whose bufferLength / bytesHashed / chunk count are validated after every step by Trace_Writer.tla and whose digest must equal node:crypto's. Separation: all TypeGen programs are observed on a common pool and Trace_Sep.tla requires equal digests to imply equal validate vectors. Invariance: the rewrite classes of C08 must have equal hash256 (and equal hash() under the rewrites C13 names).",
              ref="4/C13 and 1.3", note="Trusted: TLC; node:crypto for the digest value (bits of SHA-256 are outside TLA+); separation only sees behavioural differences on the common pool.",
              tech="TLC model of the streaming writer + behaviour replay + trace validation; digest separation and rewrite invariance judged by TLC"),
+ "C15": dict(text="Same TLC-enumerated programs as C01 plus a describe family (non-identifier keys, named types referenced twice, recursive and tuple-recursive names, every non-JSON builtin); for each program the describe() text is compiled again (generation 2) and Trace_Describe.tla requires: the text compiles, generation-2 validate vectors and hash256 equal generation 1, describe() of generation 2 equals the text (fixpoint), no alias is declared twice.",
+             ref="4/C15", note="Trusted: TLC; validators are compared on type-directed probes plus the common pool; declared names are extracted with a regular expression.",
+             tech="TLC-enumerated programs; two-generation round trip judged by TLC on the trace"),
 }
 NA = []
 def main():
